@@ -24,6 +24,8 @@ val add : nat -> nat -> nat
 
 val mul : nat -> nat -> nat
 
+val sub : nat -> nat -> nat
+
 type positive =
 | XI of positive
 | XO of positive
@@ -170,6 +172,8 @@ module Z :
  end
 
 val nth : nat -> 'a1 list -> 'a1 -> 'a1
+
+val rev : 'a1 list -> 'a1 list
 
 val map : ('a1 -> 'a2) -> 'a1 list -> 'a2 list
 
@@ -603,3 +607,55 @@ val ws_run :
 val cwatershed : arr -> arr -> arr -> bool -> z list * z list
 
 val flood_spec : arr -> arr -> arr -> bool -> z list * z list
+
+type ext =
+| NegInf
+| Fin of z * z
+
+val ext_lt_frac : ext -> z -> z -> bool
+
+val ext_lt_int : ext -> z -> bool
+
+val hull_pop : z list -> z -> (z * ext) list -> (z * ext) list
+
+val build_hull : z list -> (z * ext) list
+
+val sweep_adv : nat -> z -> (z * ext) list -> (z * ext) list
+
+val dt1d_with_origin : z list -> (z * z) list
+
+val dt1d : z list -> z list
+
+val lmin : z list -> z
+
+val minplus1d : z list -> z list
+
+val line0 : z -> z -> z list -> z -> z list
+
+val pass_axis0 : (z list -> z list) -> z -> z -> z list -> z list
+
+val block : z -> z -> z list -> z list
+
+val dt_nd : (z list -> z list) -> z list -> z list -> z list
+
+val dist_inf : z list -> z
+
+val dist_init : arr -> z list
+
+val distance : arr -> z list
+
+val sqdist : z list -> z list -> z
+
+val distance_spec : arr -> z list
+
+val line0o : z -> z -> (z * z) list -> z -> (z * z) list
+
+val t1o : (z * z) list -> (z * z) list
+
+val pass_axis0o : z -> z -> (z * z) list -> (z * z) list
+
+val blocko : z -> z -> (z * z) list -> (z * z) list
+
+val dt_ndo : z list -> (z * z) list -> (z * z) list
+
+val gvoronoi : arr -> z list
